@@ -15,10 +15,15 @@ import (
 	"errors"
 	"fmt"
 	"regexp"
+	"os"
+	"runtime"
 	"runtime/debug"
+	"strconv"
 	"sort"
 	"strings"
+	"sync"
 	"testing"
+	"time"
 
 	"github.com/cockroachdb/pebble"
 	"github.com/cockroachdb/pebble/internal/verif/hx"
@@ -58,8 +63,9 @@ var handShapes = []dbState{
 	}},
 }
 
-// Alphabet of batch operations, simplest first; all on the keys the DB states use. The first
-// coreN symbols are the core alphabet (enumerated one level deeper in the thorough tier).
+// Alphabet of batch operations, simplest first; all on the keys the DB states use. Prefixes of the
+// list are the deeper plans' alphabets: the first core4N symbols (every operation kind but LogData,
+// whole-range and partial range keys) are enumerated to depth 4, the first core3N to depth 3.
 var batchAlpha = []hx.Op{
 	{K: "set", Key: "a"},
 	{K: "del", Key: "a"},
@@ -70,16 +76,20 @@ var batchAlpha = []hx.Op{
 	{K: "sdel", Key: "a"},
 	{K: "rkunset", Key: "a", End: "c", Suf: "@1"},
 	{K: "rkdel", Key: "a", End: "c"},
-	{K: "merge", Key: "b@1"},
-	{K: "delrange", Key: "b", End: "c"},
 	{K: "rkset", Key: "b", End: "c", Suf: "@2"},
-	// --- end of core (12)
+	// --- end of core4 (10)
+	{K: "delrange", Key: "b", End: "c"},
+	{K: "merge", Key: "b@1"},
+	// --- end of core3 (12)
 	{K: "logdata"},
 	{K: "rkdel", Key: "a", End: "b"},
 	{K: "set", Key: "c"},
 }
 
-const coreN = 12
+const (
+	core4N = 10
+	core3N = 12
+)
 
 // dbCfg is hx's base configuration made cheap to open (a fresh DB is opened per case): 32 KiB
 // memtable (zeroing a 256 KiB arena per Open dominated the run time; batches stay far below the
@@ -895,6 +905,37 @@ func findState(states []*dbState, cs Case) *dbState {
 	return st
 }
 
+// Watchdog: a read that never returns (e.g. an iterator cycling inside Pebble) cannot be interrupted
+// from Go; a case in flight for more than hangLimit is reported as a violation of class "hang" and
+// the process writes its result and exits.
+const hangLimit = 60 * time.Second
+
+type flight struct {
+	cs    Case
+	start time.Time
+}
+
+var inflight sync.Map // *flight -> struct{}
+
+func watchdog(c *vlib.Ctx, stop chan struct{}) {
+	for {
+		select {
+		case <-stop:
+			return
+		case <-time.After(2 * time.Second):
+		}
+		inflight.Range(func(k, _ any) bool {
+			fl := k.(*flight)
+			if time.Since(fl.start) > hangLimit {
+				c.Violation("hang", fmt.Sprintf("DB state %s [%s], batch [%s]: the case did not finish within %s (a read or write call does not return)", fl.cs.State, hx.HistString(fl.cs.Hist), hx.HistString(fl.cs.Seq), hangLimit), fl.cs)
+				c.Incomplete("aborted: a case hung (violation class hang)")
+				c.WriteAndExit()
+			}
+			return true
+		})
+	}
+}
+
 type plan struct {
 	states     []*dbState
 	alpha      []hx.Op
@@ -902,7 +943,17 @@ type plan struct {
 }
 
 func TestCheck(t *testing.T) {
-	debug.SetGCPercent(400)
+	// One DB is opened per case (about 1 MiB of short-lived allocations each) on a live heap of a few
+	// MiB: an untouched ballast makes collections rare instead of one every few cases.
+	mb := 128
+	if v, err := strconv.Atoi(os.Getenv("C05_BALLAST_MB")); err == nil {
+		mb = v
+	}
+	if v, err := strconv.Atoi(os.Getenv("C05_GOGC")); err == nil {
+		debug.SetGCPercent(v)
+	}
+	ballast := make([]byte, mb<<20)
+	defer runtime.KeepAlive(ballast)
 	vlib.Main(t, "C05", func(c *vlib.Ctx) {
 		if c.ReplayPath() != "" {
 			var cs Case
@@ -919,6 +970,9 @@ func TestCheck(t *testing.T) {
 			c.Eval(1)
 			return
 		}
+		stop := make(chan struct{})
+		defer close(stop)
+		go watchdog(c, stop)
 		fine, coarse, total, err := buildStates()
 		if err != nil {
 			c.Incomplete("cannot build the DB states: " + err.Error())
@@ -936,13 +990,13 @@ func TestCheck(t *testing.T) {
 		if !c.Thorough() {
 			plans = []plan{
 				{states: coarse, alpha: batchAlpha, minD: 0, maxD: 2},
-				{states: coarse, alpha: batchAlpha[:coreN], minD: 3, maxD: 3},
+				{states: coarse, alpha: batchAlpha[:core3N], minD: 3, maxD: 3},
 			}
 		} else {
 			c.Note("db_states_fine", stateNames(fine))
 			plans = []plan{
 				{states: fine, alpha: batchAlpha, minD: 0, maxD: 3},
-				{states: coarse, alpha: batchAlpha[:coreN], minD: 4, maxD: 4},
+				{states: coarse, alpha: batchAlpha[:core4N], minD: 4, maxD: 4},
 			}
 		}
 		var notes []string
@@ -966,14 +1020,18 @@ func TestCheck(t *testing.T) {
 						seq = append(seq, p.alpha[s])
 					}
 				}
+				fl := &flight{cs: Case{State: st.Name, Hist: st.Hist, Seq: seq}, start: time.Now()}
+				inflight.Store(fl, struct{}{})
 				f, skipped, r := runCase(c, st, seq, false)
+				inflight.Delete(fl)
 				c.Eval(1)
 				switch {
 				case skipped:
 					c.Outcome("skipped-outside-singledelete-contract")
 				case f != nil:
-					// re-execute before reporting
-					for n := 0; n < 2; n++ {
+					// re-execute before reporting (the first violations only: a broken tree fails nearly
+					// every case and only 5 artefacts per class are kept anyway)
+					for n := 0; n < 2 && c.NViolations() < 20; n++ {
 						if f2, _, _ := runCase(c, st, seq, false); f2 == nil {
 							c.Incomplete("violation did not reproduce: " + describe(st, seq, f))
 							return
